@@ -29,7 +29,7 @@ ASSUMPTIONS = [
     "lines whose fragments the sampler cannot instantiate are skipped and counted (skipped_unsampled)",
 ]
 EXHAUSTIVE = {"quick": True, "thorough": True}
-FLOORS = {"quick": {"A_matches": 5000, "A_reverse": 2000, "B_rules": 150, "B_ignore_rules": 100, "B_ignore_case_rules": 100, "C_lines": 1500, "C_rows": 10000, "B_inline_flag_rules": 400, "B_nested_ignore_rules": 200, "B_governing_rule_lookups": 8000, "B_implicit_completions": 60, "B_inline_flag_diffs": 30, "B_inline_flag_negated_forms": 200, "B_texts_loaded_through_the_provider": 9},
+FLOORS = {"quick": {"A_matches": 5000, "A_reverse": 2000, "B_rules": 150, "B_ignore_rules": 100, "B_ignore_case_rules": 100, "C_lines": 1500, "C_rows": 10000, "B_inline_flag_rules": 400, "B_nested_ignore_rules": 200, "B_governing_rule_lookups": 8000, "B_implicit_completions": 60, "B_inline_flag_diffs": 30, "B_inline_flag_negated_forms": 200, "B_texts_with_parameters_on_a_line_at_the_left_margin": 1, "B_texts_loaded_through_the_provider": 9},
           "thorough": {"A_matches": 5000, "A_reverse": 2000, "B_rules": 150, "B_ignore_rules": 100, "B_ignore_case_rules": 100, "C_lines": 1500, "C_rows": 10000}}
 PREFIXES = ["undo", "no", "delete", "remove", "-"]
 VENDOR_BY_PREFIX = {"undo": "huawei", "no": "cisco", "delete": "juniper", "remove": "routeros", "-": "pc"}
@@ -82,7 +82,13 @@ def check_match(p, r, acc, flags=0, real=None, tag="A"):
     rx = real or compile_row_regexp(p, flags)
     m = rx.match(r)
     got = None if m is None else tuple(m.groups())
-    exp = R.match(p, r)
+    if p.endswith(" ..."):
+        # a free-standing ellipsis: the words in front of it, then at least one more word of any kind
+        pw, ws = p[:-4].split(), r.split()
+        exp = R.match(" ".join(pw) + " ~", r) if len(ws) > len(pw) else None
+        exp = None if exp is None else tuple(exp[:-1])
+    else:
+        exp = R.match(p, r)
     acc.case([p, r], nontrivial=(n_placeholders(p) >= 1 and near(p, r)))
     if exp is not None:
         acc.count(tag + "_matches")
@@ -177,6 +183,7 @@ def run_A(spec, acc):
                     check_match(p, r2, acc)
                     acc.count("A_icase")
         for p, rs in [("a b...", ["a b", "a bc", "a c", "a", "a b c", "ab b"]), ("a...", ["a", "ab", "b", "a b"]),
+                      ("a ...", ["a", "a b", "ab", "ab c", "a-x y", "a  b c"]), ("a * ...", ["a b", "a bc d", "a", "a b", "a bx"]), ("a */[ab]+/ ...", ["a ab c", "a abc d", "a ab", "a a b"]),
                       ("* a...", ["x a", "x ab c", "x b"]), ("a <name>", ["a b", "a b-c", "a", "a b_1 c"]),
                       ("<n1> a <n2>", ["x a y", "x a", "x-y a z"]), ("a */[ab]+/ ~", ["a ab c d", "a c d", "a ab"])]:
             for r in rs:
@@ -495,10 +502,24 @@ def run_B_nested(acc):
     def text(rules, ind=0):
         out = []
         for pat, attrs, ch in rules:
-            out.append(" " * ind + pat + "  %%timeout=%d" % attrs["timeout"])
+            if cont and attrs["timeout"] % 2:
+                out.append(" " * ind + pat)
+                out.append("%%timeout=%d" % attrs["timeout"])       # the parameters on a line of their own, at the left margin
+            else:
+                out.append(" " * ind + pat + "  %%timeout=%d" % attrs["timeout"])
             out.extend(text(ch, ind + 2))
         return out
+    cont = False
     comp = compile_deploying_text("\n".join(text(NESTED)), "huawei")
+    cont = True
+    comp_c = compile_deploying_text("\n".join(text(NESTED)), "huawei")
+
+    def shape(c_):
+        return [(raw.split("%")[0].strip(), r_["attrs"]["regexp"].pattern, r_["attrs"]["timeout"], shape(r_["children"])) for raw, r_ in c_.items()]
+    acc.count("B_texts_with_parameters_on_a_line_at_the_left_margin")
+    if shape(comp_c) != shape(comp):
+        acc.violation("C07/B/continuation-line-changes-the-rule", "a rule whose parameters stand on a line of their own at the left margin compiles to another pattern (or other parameters) than the one-line spelling",
+                      {"one_line": shape(comp), "two_lines": shape(comp_c)})
     rws = ["a x", "a", "b", "b x", "c y", "c", "a b", "d", "b c", "a x y"]
     for n in (1, 2, 3):
         for path in itertools.product(rws, repeat=n):
